@@ -30,10 +30,60 @@ def must_worker(prog, name):
     return dc.explore(prog, name)
 
 
+FILL_FAMILY = ("_strset_s_chk", "_strnset_s_chk", "_strzero_s_chk")
+
+
+def budget_exhausted(fn, path):
+    """does the path leave a loop on the edge where a counter initialised from dmax is zero"""
+    mp = fn.pnames.get("dmax")
+    if not path or mp is None:
+        return False
+    for b, s_ in zip(path, path[1:]):
+        t = fn.term(b)
+        if t["op"] != "br" or "cond" not in t:
+            continue
+        c = fn.defs.get(t["cond"].get("id")) if t["cond"].get("k") == "v" else None
+        if c is None or c["op"] != "icmp" or c["pred"] not in ("eq", "ne"):
+            continue
+        a, z = c["ops"]
+        if not (z.get("k") == "c" and z["v"] == 0 and a.get("k") == "v"):
+            continue
+        ph = fn.defs.get(a["id"])
+        if ph is None or ph["op"] != "phi" or ph["_bb"] not in fn.loops:
+            continue
+        init = [x["v"] for x in ph["incoming"] if x["bb"] not in fn.loops[ph["_bb"]]["_set"]]
+        def from_dmax(o, depth=0):
+            # the remaining capacity: dmax itself, or dmax minus what was consumed so far (another such counter, a pointer difference)
+            if o is None or o.get("k") != "v" or depth > 6:
+                return False
+            if o["id"] == mp["id"]:
+                return True
+            d_ = fn.defs.get(o["id"])
+            if d_ is None:
+                return False
+            if d_["op"] in ("zext", "trunc"):
+                return from_dmax(d_["ops"][0], depth + 1)
+            if d_["op"] == "sub":
+                return from_dmax(d_["ops"][0], depth + 1)
+            if d_["op"] == "add":
+                return from_dmax(d_["ops"][0], depth + 1) or from_dmax(d_["ops"][1], depth + 1)
+            if d_["op"] == "phi":
+                return any(from_dmax(x["v"], depth + 1) for x in d_["incoming"])
+            return False
+        if not (init and from_dmax(init[0])):
+            continue
+        zero_side = t["t"] if c["pred"] == "eq" else t["f"]
+        if s_ == zero_side:
+            return True
+    return False
+
+
 def must_clear(ck, prog):
     """third clause: on every success return of a string producer on which this call stored into dest, dest has been zeroed up to its declared
     end since the last non-zero write (a memset / zero-only loop certified by the end clause, a full clearing, or a nested producer's own success)."""
     names = [n for n in dc.anchored_writers(prog, "C03") if n not in MUST_EXCLUDE]
+    # the fill family is anchored by C08 only (strset_s, strnset_s, strzero_s)
+    names += [n for n in dc.anchored_writers(prog, "C08") if n not in names and n in FILL_FAMILY]
     res, err = par.pmap(prog, must_worker, names)
     for n, e in err.items():
         ck.fail_broken("%s: internal error: %s" % (n, e.strip().splitlines()[-1]))
@@ -47,6 +97,9 @@ def must_clear(ck, prog):
             continue
         base = api.base_name(n)
         succ = [o for o in r["outcomes"] if o["err"] is False and o["wrote"] and not o["exempt"]]
+        if n in FILL_FAMILY:
+            # a fill that ran until the declared size was used up leaves no slack (dest was not terminated inside dmax)
+            succ = [o for o in succ if not budget_exhausted(prog.funcs[n], o.get("path"))]
         nsucc += len(succ)
         per[base] = dict(success_classes=len(succ), without_clearing=sum(1 for o in succ if not o["slack"]))
         for o in succ:
